@@ -139,7 +139,7 @@ def handler_wiring(ctx, r1, pr, f, bb):
                 r1.site("offer == pools[%d]: payout asset = pools[%d].info" % (k, 1 - k))
 
 
-def run(ctx):
+def _run(ctx):
     n1 = ctx.inst("C01.N1", "pricing: net output never exceeds ask*offer/(offer_reserve+offer) (all inputs, all rates) — E-ROUND", floor=1)
     n2 = ctx.inst("C01.N2", "pricing: net = gross - floor(rate*gross) by aborting subtraction", floor=2)
     n3 = ctx.inst("C01.N3", "the commission is not paid out: the only payout of the swap handler carries the net output (shared with C02.R6)", floor=3)
@@ -156,3 +156,9 @@ def run(ctx):
             r1.fail("C01.R1:anchor", "-", "-", "anchor-missing: %s" % e)
     ctx.assumptions.append("paper step: n <= y*a/(x+a) implies (x+a)(y-n) >= x*y and, for x >= 1, n < y; x >= 1 while LP supply > 0 follows by induction from C04/C05")
     ctx.assumptions.append("commission rate is in [0,1] (enforced at creation: C16.R7) and inputs are non-negative integers below 2^128")
+
+
+def run(ctx):
+    from .. import numeric
+    _run(ctx)
+    numeric.arith_base(ctx, "C01.B1")
